@@ -17,3 +17,11 @@ func VerifCsprngUint32n(csprng io.Reader, n uint32) (uint32, error) {
 func VerifCsprngShuffle(csprng io.Reader, n int, swap func(i, j int)) error {
 	return csprngShuffle(csprng, n, swap)
 }
+
+// VerifParseFrame exposes parseFrame for the header (begin=true) or footer marker.
+func VerifParseFrame(m string, typ MessageType, begin bool) (string, error) {
+	if begin {
+		return parseFrame(m, typ, headerMarker)
+	}
+	return parseFrame(m, typ, footerMarker)
+}
